@@ -2,5 +2,5 @@
 # usage: tools/check.sh <property id> <quick|thorough>
 cd /verif || exit 3
 tools/setup.sh >/dev/null 2>&1 || { echo "setup failed"; tools/setup.sh; exit 3; }
-export PYTHONPATH=/verif
+export PYTHONPATH=${VF_REPO:+$VF_REPO:}/verif
 exec /verif/.venv/bin/python -m vf.run "$1" "${2:-quick}"
